@@ -12,14 +12,52 @@ with atheris.instrument_imports(include=["tensora", "parsita"]):
     from harness.props import c12
 
 
+def report(case, res):
+    """Save the failing *case* (not the raw bytes) so the parent can replay it without the fuzzer."""
+    import hashlib
+    import json
+    import os
+
+    out = os.environ.get("FUZZ_FOUND_DIR", ".")
+    blob = json.dumps(case, sort_keys=True)
+    with open(os.path.join(out, "found-" + hashlib.sha1(blob.encode()).hexdigest()[:12] + ".json"), "w") as fh:
+        fh.write(blob)
+    raise AssertionError(res["fails"][0]["bucket"] + " :: " + res["fails"][0]["detail"])
+
+
 def target(data):
     fdp = atheris.FuzzedDataProvider(data)
     text = fdp.ConsumeUnicodeNoSurrogates(256)
-    res = c12.check_text({"text": text[:256], "kind": "arbitrary"})
+    case = {"text": text[:256], "kind": "arbitrary"}
+    res = c12.check_text(case)
     if res["fails"]:
-        raise AssertionError(res["fails"][0]["bucket"] + " :: " + res["fails"][0]["detail"])
+        report(case, res)
+
+
+def hypothesis_target():
+    """Coverage-guided search through the structured sentence generators (Hypothesis strategies driven by
+    libFuzzer's byte stream), so the fuzzer reaches long valid sentences instead of dying in the tokenizer."""
+    import hypothesis
+    from hypothesis import strategies as st
+
+    strat = st.one_of(c12.sentences("thorough"), c12.arbitrary_text("thorough"), c12.invalid_sentences("thorough"),
+                      c12.trees("thorough"))
+
+    @hypothesis.settings(database=None, deadline=None, suppress_health_check=list(hypothesis.HealthCheck))
+    @hypothesis.given(strat)
+    def t(case):
+        res = c12.check_text(case)
+        if res["fails"]:
+            report(case, res)
+
+    return t.hypothesis.fuzz_one_input
 
 
 if __name__ == "__main__":
-    atheris.Setup(sys.argv, target)
+    import os
+
+    if os.environ.get("FUZZ_MODE") == "hypothesis":
+        atheris.Setup(sys.argv, hypothesis_target())
+    else:
+        atheris.Setup(sys.argv, target)
     atheris.Fuzz()
